@@ -184,6 +184,12 @@ func c10Run(c *core.Ctx) *core.Result {
 			follow = nil
 		}
 	}
+	if follow == nil && core.NewRand(core.Mix(c.Seed, "C10-empty-follow", c.Index)).P(1, 10) {
+		// a follow list that is there but empty (a decoded "[]"): nothing is
+		// followed, the caller's patterns apply as they are
+		follow = []string{}
+		r.Count("empty_non_nil_follow_lists", 1)
+	}
 	naive, err := refs.SelectNaive(items, inc, exc)
 	opt := &fsutil.FilterOpt{IncludePatterns: userInc, ExcludePatterns: exc, FollowPaths: follow}
 	if err != nil {
